@@ -63,4 +63,10 @@ func VerifC19_TwoCreations() {
 	got2, found2 := k.GetRecord(e.ctx, id2)
 	verifAssert(found2 && verifDeepEqual(got2.Contents, second) && got2.Creator == creator.String(), "second record reads back exactly as submitted")
 	verifAssert(k.GetIntraTxCounter(e.ctx) == c0+2, "counter advances by one per record")
+	// the module's public read path: the query service, under the ids the creators were given
+	for i, id := range []string{r1.Id, r2.Id} {
+		want := []*types.Record{&got1, &got2}[i]
+		resp, qerr := k.Record(e.ctx, &types.QueryRecordRequest{RecordId: id})
+		verifAssert(qerr == nil && resp != nil && resp.Record != nil && verifDeepEqual(*resp.Record, *want), "the query service returns each record under the id its creator was given")
+	}
 }
